@@ -308,6 +308,52 @@ def r5(led, rid, ctx):
     led.check(pos, rid, "c-implied-by-r", f.span, "self.implied_by(r)", "reify does not post c ← r")
     led.check(neg, rid, "not-c-implied-by-not-r", f.span, "negation.implied_by(!r)",
               "reify does not post ¬c ← ¬r (negation / negated literal wiring broken)")
+    # MUST-PASS, per world of the literal: every successful path posts what r ⇔ c needs
+    n = 0
+    for p in SymExec(f, max_paths=400).run():
+        if p.diverged or p.ret is None or any(c.name == "from_residual" for c in p.ret.calls()):
+            continue
+        world = None        # value of the literal the path has established, if any
+        for cond, val, others in p.conds:
+            if cond.k == "discr" and any(c.name == "get_literal_value" for c in cond.calls()):
+                world = variant_name(f, cond, val, others)      # Some / None
+            c_ = peel(cond, calls=None)
+            if c_.k == "proj" and any(c.name == "get_literal_value" for c in c_.calls()) and world == "Some":
+                truth = (val != 0) if val is not None else (0 in (others or []))
+                world = "true" if truth else "false"
+            if c_.k == "call" and c_.a.name in ("is_literal_true", "is_true"):
+                truth = (val != 0) if val is not None else (0 in (others or []))
+                world = "true" if truth else world
+            if c_.k == "call" and c_.a.name in ("is_literal_false", "is_false"):
+                truth = (val != 0) if val is not None else (0 in (others or []))
+                world = "false" if truth else world
+        has_c = has_nc = False
+        for c, a, r in p.calls:
+            if c.name not in ("post", "implied_by") or not a:
+                continue
+            who = peel(a[0], calls=None)
+            is_self = who.k == "arg" and who.a == 1
+            is_negation = who.k == "call" and who.a.name == "negation"
+            if c.name == "post":
+                has_c = has_c or is_self
+                has_nc = has_nc or is_negation
+            else:
+                l = peel(a[2], calls=None) if len(a) > 2 else None
+                l_plain = l is not None and l.k == "arg" and l.a == lit
+                l_not = l is not None and l.k == "call" and l.a.name == "not"
+                has_c = has_c or (is_self and l_plain)
+                has_nc = has_nc or (is_negation and l_not)
+        need_c = world in (None, "None", "Some", "true")
+        need_nc = world in (None, "None", "Some", "false")
+        n += 1
+        ok = (has_c or not need_c) and (has_nc or not need_nc)
+        led.check(ok, rid, "reify:path:%s" % (world or "any"), f.span, "posts what r ⇔ c needs on this path",
+                  "a successful path of reify (literal %s) returns without posting %s: the assignments with %s "
+                  "are admitted although r ⇔ c excludes them"
+                  % ({"true": "known true", "false": "known false"}.get(world, "undecided"),
+                     "c ← r" if need_c and not has_c else "¬c ← ¬r",
+                     "r true and c violated" if need_c and not has_c else "r false and c satisfied"))
+    led.floor(rid, "successful paths of reify", n, 1)
 
 
 def r6(led, rid, ctx):
